@@ -70,3 +70,12 @@ pub fn cmd_record(args: &[String]) -> i32 {
     println!("{}", json!({"runs": n, "events": events, "ok_runs": ok_runs, "distinct": distinct.len()}));
     0
 }
+
+/// xv drive-one <source>: the observables of one source under every drive mode (developer / replay helper)
+pub fn cmd_one(args: &[String]) -> i32 {
+    for (drive, rec, name) in MODES.iter() {
+        let r = run_source(&args[0], *drive, *rec, 20_000);
+        println!("{:<18} {}", name, if r.panic.is_some() { json!({"panic": r.panic}) } else { observables(&r) });
+    }
+    0
+}
